@@ -3,12 +3,8 @@ import Mkdb.Driver.Util
 namespace Mkdb.Driver.Console
 open Mkdb.Console Mkdb.Driver
 
-/-- UTF-8 encoding of a code point (for comparison with the Go strings). -/
-def utf8 (c : Nat) : List UInt8 :=
-  if c < 0x80 then [c.toUInt8]
-  else if c < 0x800 then [(0xC0 + c / 64).toUInt8, (0x80 + c % 64).toUInt8]
-  else if c < 0x10000 then [(0xE0 + c / 4096).toUInt8, (0x80 + c / 64 % 64).toUInt8, (0x80 + c % 64).toUInt8]
-  else [(0xF0 + c / 262144).toUInt8, (0x80 + c / 4096 % 64).toUInt8, (0x80 + c / 64 % 64).toUInt8, (0x80 + c % 64).toUInt8]
+/-- UTF-8 encoding of a code point (for comparison with the Go strings): `string(rune)`. -/
+def utf8 (c : Nat) : List UInt8 := (encodeRune c).map Nat.toUInt8
 
 def showStmt (s : List Nat) : String := hexOrDash (s.flatMap utf8)
 
@@ -18,17 +14,41 @@ def showSubmit (ss : List (List Nat)) : String :=
 def stepLine (_ : Unit) (line : String) : Unit × List String :=
   match words line with
   | "keys" :: ks => ((), (run {} (ks.map natOr)).map showSubmit ++ ["end"])
+  -- a complete byte stream read by `ReadLine` until it returns an error
+  | ["bytes", h] => ((), (session (((bytesOfHex h).getD []).map UInt8.toNat)).map showSubmit ++ ["end"])
   | _ => ((), [])
 
 /-- Judge (C20): all submissions together are exactly the typed statements, once each, in order. -/
 structure J where
   caseId : String := "?"
   expect : Option (List String) := none
+  expectDbs : List String := []
 
 def judgeLine (j : J) (op : String) (outs : List String) : J × List String :=
   match words op with
   | ["case", n] => ({ caseId := n }, [])
   | "expect" :: ws => ({ j with expect := some ws }, [])
+  -- the PROGRAM (`main`'s loop over a pseudo terminal, a real session): the statements of the byte
+  -- stream are CREATE DATABASE statements, so what reached the engine is the set of databases that
+  -- exist afterwards; every statement typed or pasted must have been executed, and the console must
+  -- still be there to take the ^D that ends it
+  | "expectdbs" :: ws => ({ j with expectDbs := ws }, [])
+  | "main" :: _ =>
+    let dbs := (outs.find? (·.startsWith "dbs")).map (fun l => (words l).drop 1) |>.getD []
+    let how := (outs.find? (·.startsWith "returned")).map (fun l => ((words l).drop 1).headD "") |>.getD ""
+    if how == "nopty" || how.startsWith "setup" || how == "notraw" then (j, []) else   -- no pseudo terminal here: nothing observed
+    let missing := j.expectDbs.filter fun d => !dbs.contains d
+    let extra := dbs.filter fun d => !j.expectDbs.contains d
+    (j, (if missing.isEmpty && extra.isEmpty then [] else
+          [s!"VIOLATION case={j.caseId} sig=console:program-statements-not-executed missing=[{" ".intercalate missing}] unexpected=[{" ".intercalate extra}] returned=[{how}]"]) ++
+        (if how == "ok" then [] else
+          [s!"VIOLATION case={j.caseId} sig=console:program-ended-abnormally returned=[{how}]"]))
+  | ["bytes", h] =>
+    -- a byte stream with corrections, cursor movement, history, pastes: the model is the oracle
+    let want := (session (((bytesOfHex h).getD []).map UInt8.toNat)).map showSubmit ++ ["end"]
+    if outs.any (· == "panic") then (j, [s!"VIOLATION case={j.caseId} sig=console:panic"])
+    else if outs == want then (j, [])
+    else (j, [s!"VIOLATION case={j.caseId} sig=console:submitted-differs expected=[{(" | ".intercalate want).take 300}] got=[{(" | ".intercalate outs).take 300}]"])
   | "keys" :: ks =>
     match j.expect with
     | none =>
